@@ -90,6 +90,42 @@ def align_records(lines):
     return out
 
 
+def bgzf_model_check(ck, path, lines, tag):
+    """the byte-level file model (Model/Bgzf.lean, theorems of Props/C17b.lean) against htslib: the block layout is parsed from the
+    gzip headers by the harness, `tell()` before every record comes from pysam; the model must resolve each virtual offset to the
+    start of that record in the uncompressed stream (and, for small files, read that record there)"""
+    layout = gen.bgzf_layout(path)
+    offs, raw = gen.record_offsets(path)
+    total = sum(len(p) for _, p in layout)
+    small = total <= 40000
+    blocks = [[a, len(p), p.hex() if small else None] for a, p in layout]
+    r = ck.driver([{"op": "bgzf.resolve", "blocks": blocks, "with_data": small, "voffs": offs}])[0]
+    starts, pos = [], 0
+    raw = [l if l.endswith("\n") else l + "\n" for l in raw]      # pysam's BGZF readline returns the line without its newline
+    for l in raw:
+        starts.append(pos)
+        pos += len(l.encode())
+    ck.count("bgzf-model:%s" % tag)
+    ck.count("bgzf-model:blocks:%s" % ("1" if len(layout) <= 2 else "2-5" if len(layout) <= 6 else "6+"))
+    if any(len(p) == 0 for _, p in layout[:-1]):
+        ck.count("bgzf-model:empty-block-inside")
+    bound = {a + 0 for a, _ in layout}
+    if any((o >> 16) in bound and (o & 0xFFFF) == 0 and i > 0 for i, o in enumerate(offs)):
+        ck.count("bgzf-model:record-starts-a-block")
+    replay = {"file": os.path.basename(path), "blocks": [[a, len(p)] for a, p in layout][:50], "voffs": offs[:50], "starts": starts[:50]}
+    if not r["wf"] or r["total"] != pos:
+        ck.disagreement("BGZF layout parsed from the file is not well-formed for the model / stream length differs", replay)
+        return
+    got = [x["pos"] for x in r["results"]]
+    if got != starts:
+        bad = [i for i, (g, s) in enumerate(zip(got, starts)) if g != s][:5]
+        ck.disagreement("pysam's tell() before record i does not resolve, in the model, to the start of record i (records %s)" % bad, dict(replay, model=got[:50]))
+        return
+    # the driver renders every byte as one character (Latin-1): compare as bytes
+    if small and [None if x["line"] is None else x["line"].encode("latin-1") for x in r["results"]] != [l.encode() for l in raw]:
+        ck.disagreement("the model's seek+readline at pysam's offsets does not return the records", replay)
+
+
 def count_bgzf_blocks(path):
     offs, _ = gen.record_offsets(path)
     return len({o >> 16 for o in offs})
@@ -173,7 +209,7 @@ def main():
                   "htslib/pysam BGZF reader (tell/seek/readline), zlib/gzip.open: foreign code, assumed to implement the interface (strictly increasing offsets, seek returns the record); checked by this correspondence only"]
     ck.assumptions = ["pysam.libcbgzf.BGZFile and gzip.open return the same bytes as the plain file; tell() before a record is strictly increasing; seek(tell()) returns that record"]
     ck.canon = ["index / .gsi offsets resolved to record ordinals per file before comparing", "stat report compared without blank lines", "order_gfa outputs keyed by chromosome (the CSV file name differs for a .gfa.gz input: contents compared)"]
-    ck.lean_build(["Gaftools.Props.C17"])
+    ck.lean_build(["Gaftools.Props.C17", "Gaftools.Props.C17b"])
     ck.audit("C17.lean")
     rng = ck.rng
     quick = ck.tier == "quick"
@@ -201,6 +237,27 @@ def main():
                                      {"command": cmd, "records": len(lines), "plain": str(base[cmd])[:1500], "other": str(other[cmd])[:1500],
                                       "gfa": open(p["gfa"]).read()[:3000], "gaf_head": lines[:5]})
             ck.count("bgzf-blocks:%d" % min(nblocks, 4))
+            # the byte-level file model against htslib: the file as written above, and the same text in small flushed blocks
+            # (records straddling blocks, blocks ending exactly at a record boundary, empty blocks)
+            bgzf_model_check(ck, p["gafz"], lines, "default-blocks")
+            small = os.path.join(tmp, "small.gaf.gz")
+            for blk in (rng.choice([97, 150, 400]), None):
+                sub = lines[:rng.randint(20, 120)]
+                text = "".join(l + "\n" for l in sub)
+                if blk is None:
+                    # blocks cut exactly at record boundaries, with an empty block (a flush without data) in between
+                    from pysam import libcbgzf
+                    f = libcbgzf.BGZFile(small, "wb")
+                    for k, l in enumerate(sub):
+                        f.write((l + "\n").encode())
+                        if k % 7 == 3:
+                            f.flush()
+                        if k % 21 == 3:
+                            f.flush()
+                    f.close()
+                else:
+                    gen.write_bgzf(small, text, block=blk)
+                bgzf_model_check(ck, small, sub, "small-blocks" if blk else "blocks-at-record-boundaries")
     finally:
         shutil.rmtree(tmp, ignore_errors=True)
     ck.rule = "generated graph + GAF (1500 padded records > 64 KiB = several BGZF blocks; smaller files; one file with reads for realign) run through index, view (nodes/region/format/whole), sort(+.gsi), stat, phase, realign, find_path, order_gfa under the four {plain,BGZF} x {plain,gzip} combinations; non-trivial = GAF of >= 2 BGZF blocks or a gzip-compressed graph"
